@@ -1,6 +1,7 @@
 package main
 
 import (
+	"hash/fnv"
 	"bufio"
 	"fmt"
 	"os"
@@ -10,15 +11,15 @@ import (
 )
 
 type Clause struct {
-	Kind   string // requires ensures invariant assertcall axiom lemma
-	Labels []string
-	Text   string
-	E      Expr
-	Trusted bool  // assumed at call sites, not checked against the body (reported as trusted)
-	Loop   int    // for invariant
-	Callee string // for assertcall: suffix of callee key
-	File   string
-	Line   int
+	Kind    string // requires ensures invariant assertcall axiom lemma
+	Labels  []string
+	Text    string
+	E       Expr
+	Trusted bool   // assumed at call sites, not checked against the body (reported as trusted)
+	Loop    int    // for invariant
+	Callee  string // for assertcall: suffix of callee key
+	File    string
+	Line    int
 }
 
 func (c *Clause) Name() string {
@@ -53,27 +54,27 @@ type GhostAssign struct {
 }
 
 type Contract struct {
-	Key        string
-	PkgPath    string // package whose scope resolves names
-	Requires   []*Clause
-	Ensures    []*Clause
-	LoopInv    map[int][]*Clause
-	AssertCall []*Clause
-	Prologue   []*GhostAssign
-	Epilogue   []*GhostAssign
-	Modifies   []string // heap-name patterns; nil = inferred
-	HasMod     bool
-	Pure       bool
-	Assumed    bool
-	MayPanic   bool
-	NoSafety   bool
+	Key         string
+	PkgPath     string // package whose scope resolves names
+	Requires    []*Clause
+	Ensures     []*Clause
+	LoopInv     map[int][]*Clause
+	AssertCall  []*Clause
+	Prologue    []*GhostAssign
+	Epilogue    []*GhostAssign
+	Modifies    []string // heap-name patterns; nil = inferred
+	HasMod      bool
+	Pure        bool
+	Assumed     bool
+	MayPanic    bool
+	NoSafety    bool
 	SafetyProps []string
-	Params     []string // optional explicit parameter names (externals)
-	Behavior   string   // name of the behaviour (case) this contract describes; "" for a plain contract
-	Target     string   // function key (Key is Target#Behavior for behaviours)
-	FvTargets  []string // dynamic calls are restricted (and checked) to callees whose key contains one of these
-	File       string
-	Line       int
+	Params      []string // optional explicit parameter names (externals)
+	Behavior    string   // name of the behaviour (case) this contract describes; "" for a plain contract
+	Target      string   // function key (Key is Target#Behavior for behaviours)
+	FvTargets   []string // dynamic calls are restricted (and checked) to callees whose key contains one of these
+	File        string
+	Line        int
 }
 
 type SpecFunc struct {
@@ -466,4 +467,11 @@ func splitTop(s string, sep byte) []string {
 	}
 	out = append(out, s[start:])
 	return out
+}
+
+// unlabelledName names an unlabelled postcondition by its text, so that the name survives edits elsewhere in the file.
+func unlabelledName(c *Clause) string {
+	h := fnv.New32a()
+	h.Write([]byte(strings.Join(strings.Fields(c.Text), " ")))
+	return fmt.Sprintf("ensures#%06x", h.Sum32()&0xffffff)
 }
